@@ -230,6 +230,37 @@ def laws():
         cart_new = sp.Matrix([coef]) * sp.Matrix(frame(s[1], nco))
         return Case(list(cart_new - cart_old), assume=domain(s[0], co), axioms=axioms.kit(angles(s[0], co), polar(s[0], co)))
 
+    # the conversion is a FUNCTION of its arguments: an earlier conversion between the same two system objects (another vector at
+    # another point, and a point conversion) must not influence a later one (no state kept between calls)
+    @law("convert_vector,convert_point/independent-of-earlier-conversions-between-the-same-systems", pairs,
+         ["coordinate_systems.convert.convert_vector", "coordinate_systems.convert.convert_point"], backend="z3")
+    def _(s, g):
+        A, B = cls[s[0]](), cls[s[1]]()
+        # earlier history on the same objects: a concrete point well inside every domain and a concrete vector
+        p0 = AppliedPoint([sp.Integer(2), sp.Rational(1, 3), sp.Rational(3, 5)] if s[0] != "cart" else [sp.Integer(1), sp.Integer(2), sp.Integer(-3)], A)
+        v0 = sum(c * e for c, e in zip([sp.Integer(5), sp.Integer(-7), sp.Integer(11)], A.base_vectors(p0)))
+        CSM.convert_vector(v0, p0, B)
+        CSM.convert_point(p0, B)
+        CSM.convert_vector(2 * v0, p0, B)
+        # the measured conversion, at a generic point
+        co, p = gen_point(s[0], g, A)
+        k = [g.sym("k0"), g.sym("k1"), g.sym("k2")]
+        v = sum(ki * ei for ki, ei in zip(k, A.base_vectors(p)))
+        nv = CSM.convert_vector(v, p, B)
+        np_ = CSM.convert_point(p, B)
+        eb = B.base_vectors(np_)
+        e = sp.expand(nv)
+        coef = [e.coeff(t) for t in eb]
+        rest = sp.expand(e - sum(c * t for c, t in zip(coef, eb)))
+        if rest != 0:
+            # not an AssertionError of the harness: the real conversion returned a vector that is not expressed in the new basis at
+            # the new point -- report it as a non-zero residual so that it is judged (and replayed) like any other clause
+            return Case([sp.Integer(1)], assume=domain(s[0], co))
+        nco = [np_.coordinates[b] for b in B.base_scalars]
+        cart_old = sp.Matrix([k]) * sp.Matrix(frame(s[0], co))
+        cart_new = sp.Matrix([coef]) * sp.Matrix(frame(s[1], nco))
+        return Case(list(cart_new - cart_old), assume=domain(s[0], co), axioms=axioms.kit(angles(s[0], co), polar(s[0], co)))
+
     @law("AppliedPoint.__init__/requires-three-coordinates", [(n,) for n in (0, 1, 2, 4)], ["points.AppliedPoint.__init__"])
     def _(s, g):
         A = cls["cart"]()
